@@ -664,6 +664,29 @@ pub fn run(args: &Args, rep: &mut Report) {
                     if bx.iter().copied().collect::<Vec<_>>() != xs {
                         v17(rep, "slice/iteration-differs", String::new());
                     }
+                    // boxed slices that share one data address but differ in length: an empty array
+                    // boxed right after another box, and slices of zero-sized elements
+                    let full: BBox<[u32]> = BBox::new_in([1u32, 2, rng.below(4) as u32], b).into();
+                    let empty: BBox<[u32]> = BBox::new_in([0u32; 0], b).into();
+                    let z3: BBox<[()]> = BBox::new_in([(); 3], b).into();
+                    let z5: BBox<[()]> = BBox::new_in([(); 5], b).into();
+                    let same_addr = full.as_ptr() as usize == empty.as_ptr() as usize;
+                    rep.bump(if same_addr { "c17.same_address_slice_pairs" } else { "c17.distinct_address_slice_pairs" });
+                    let bad_pair = |x: &BBox<[u32]>, y: &BBox<[u32]>| {
+                        x.cmp(y) != (**x).cmp(&**y) || x.partial_cmp(y) != (**x).partial_cmp(&**y) || (x == y) != (**x == **y)
+                            || (x < y) != (**x < **y) || (x >= y) != (**x >= **y) || std::cmp::max(x, y).len() != std::cmp::max(&**x, &**y).len()
+                    };
+                    if bad_pair(&full, &empty) || bad_pair(&empty, &full) || bad_pair(&full, &full) {
+                        v17(rep, "slice/comparison-of-same-address-slices-differs-from-std", format!("same_addr={}", same_addr));
+                    }
+                    if z3.cmp(&z5) != (*z3).cmp(&*z5) || z5.cmp(&z3) != (*z5).cmp(&*z3) || (z3 == z5) != (*z3 == *z5) || z3.partial_cmp(&z5) != (*z3).partial_cmp(&*z5) {
+                        v17(rep, "slice/comparison-of-zero-sized-element-slices-differs-from-std", String::new());
+                    }
+                    let mut sorted = [z5, z3];
+                    sorted.sort();
+                    if sorted[0].len() != 3 || sorted[1].len() != 5 {
+                        v17(rep, "slice/sort-of-zero-sized-element-slices-differs-from-std", String::new());
+                    }
                 }
                 14 => {
                     // big value and alignment
